@@ -172,4 +172,43 @@ example : dateRange divisor 1 100 110 4 = [some 100, some 103, some 106, some 11
 example : dateRange divisor 1 110 100 4 = [some 110, some 107, some 104, some 100] := by decide
 example : dateRange divisorOld 1 100 110 1 = [none] := by decide
 
+/-! ## inside the span (explicit statement; follows from monotonicity and the end points) -/
+
+theorem spanSeconds_nonneg (perSec start stop : Int) (hp : 0 < perSec) (h : start ≤ stop) :
+    0 ≤ spanSeconds perSec start stop := by
+  unfold spanSeconds
+  rw [Int.fdiv_eq_ediv_of_nonneg _ hp.le]
+  exact Int.ediv_nonneg (by omega) hp.le
+
+/-- **inside the span**: with `start ≤ stop`, every one of the `num` release times lies in `[start, stop]` -/
+theorem inside_span (perSec start stop : Int) (num i : Nat) (hp : 0 < perSec) (h : start ≤ stop) (hi : i < num) :
+    ∃ t, releaseTime divisor perSec start stop num i = some t ∧ start ≤ t ∧ t ≤ stop := by
+  have hs := spanSeconds_nonneg perSec start stop hp h
+  refine ⟨_, releaseTime_eq perSec start stop num i, ?_, ?_⟩
+  · exact monotone_of_nonneg_span perSec start stop num 0 i hp hs (Nat.zero_le _) _ _
+      (first_is_start perSec start stop num) (releaseTime_eq perSec start stop num i)
+  · by_cases hn : 2 ≤ num
+    · obtain ⟨t, ht, hle, _⟩ := last_is_stop perSec start stop num hn hp
+      exact le_trans (monotone_of_nonneg_span perSec start stop num i (num - 1) hp hs (by omega) _ _
+        (releaseTime_eq perSec start stop num i) ht) hle
+    · have : i = 0 := by omega
+      subst this
+      have := first_is_start perSec start stop num
+      rw [releaseTime_eq] at this
+      simp only [Option.some.injEq] at this
+      omega
+
+/-- the whole list: `num` valid times, each in `[start, stop]` -/
+theorem dateRange_inside_span (perSec start stop : Int) (num : Nat) (hp : 0 < perSec) (h : start ≤ stop) :
+    (dateRange divisor perSec start stop num).length = num ∧
+    ∀ x ∈ dateRange divisor perSec start stop num, ∃ t, x = some t ∧ start ≤ t ∧ t ≤ stop := by
+  unfold dateRange
+  refine ⟨by simp, ?_⟩
+  intro x hx
+  simp only [List.mem_map, List.mem_range] at hx
+  obtain ⟨i, hi, rfl⟩ := hx
+  exact inside_span perSec start stop num i hp h hi
+
+example : ∃ t, releaseTime divisor 1 0 10 3 1 = some t ∧ (0:Int) ≤ t ∧ t ≤ 10 :=
+  inside_span 1 0 10 3 1 (by decide) (by decide) (by decide)
 end C02
